@@ -1,11 +1,11 @@
 (** M-Denoise: the session skeleton around denoise (rebench/rebench.py: minimize_noise inside a try whose
-    finally calls restore_noise - the fact is regenerated into Gen/GenFacts.restore_in_finally), the rule by
+    finally calls restore_noise - the fact is regenerated into Gen/GenFactsSession.restore_in_finally), the rule by
     which restore_noise decides to call sudo (rebench/denoise_client.py), the command wrapper of
     Executor._construct_cmdline, and the lower bound of the shielded core range (rebench/denoise.py).
     Executable, no proofs. *)
 From Coq Require Import List ZArith Bool Arith.
 Import ListNotations.
-From RV Require Import Lib.Str Lib.Sx Gen.GenFacts.
+From RV Require Import Lib.Str Lib.Sx Gen.GenFactsSession.
 
 (** a value in the JSON object printed by `denoise --json minimize` *)
 Inductive jv := JAbsent | JFailed | JTrue | JFalse.
